@@ -20,7 +20,7 @@ def _default(n: int) -> dict:
     return {"k": "", "raised": False, "exc": "", "problem": "", "rev": False, "ensure": free, "avoid": [], "srcs": [],
             "autosrc": False, "limit": -1, "res": [], "retained": free, "pnvars": [], "pn": [], "pnvars0": [],
             "sp": free, "sp0meet": free, "gvars": [], "gtt": [], "remove": False, "res1": free, "res2": [],
-            "strict": False, "ldoi": [], "drv": [], "frompn": False, "v": 0, "val": 2, "given": False, "names_in": [], "names_out": []}
+            "strict": False, "ldoi": [], "drv": [], "frompn": False, "v": 0, "val": 2, "given": False, "names_in": [], "names_out": [], "hang": False}
 
 
 def vec(space: dict, names: list[str]) -> list[int]:
@@ -116,6 +116,7 @@ def record_pure(tid: str, tt: list[list[int]], seed: int, kinds: list[str], per_
             fn(e)
         except _Hang:
             e["raised"] = True
+            e["hang"] = True
             e["exc"] = "Hang: the call did not return within 20 s"
         except Exception as ex:  # noqa: BLE001
             e["raised"] = True
